@@ -11,6 +11,12 @@ CLAIMED = {
          "Trusted: z3, go/ssa, engine intrinsics for bytealg/math/big (Int theory, Skolem decimal digits). Bound: strings <= 4 bytes (quick). Longer strings are outside the claim.", "5/C15"),
 }
 
+CLAIMED["C01"] = ("The real balance and coin-list readers (UtxoStore.ScriptAddressBalance / ScriptAddressUnspents with the record codecs keyCredit, valueUnspentCredit, readCreditValue, canonicalUnspentKey, readBlockOfUnspent ...) run symbolically over a model wallet database holding one or two arbitrary valid credits; z3 decides that totals, the spendable / withdrawable classification and the per-script, per-wallet grouping equal a 20-line oracle transcribing the consensus maturity rule (spendable by block T+1 iff T-h+1 >= lock). An arbitrary stored state stands for the result of any history that maintains the record invariant.",
+         "Trusted: z3, go/ssa, the model database. Bound: <=2 credits, 1-2 wallets. Not yet covered (so not claimed): that block connect / reorganisation / rollback maintain the stored state (apply and rollback steps, relevance filter, sync-chain steps; DESIGN 5/C01 T1c/T2) - the claim is about how a stored state is reported, not yet about how histories produce it.", "5/C01")
+
+CLAIMED["C17"] = ("The two readers that every balance, coin-list and transaction-building call goes through (ScriptAddressBalance, ScriptAddressUnspents) are executed symbolically with the commit schedule as symbolic data: the tip height read first and the tip at the moment the coin iterator is created are arbitrary with syncRead <= tipIter, the coin is any coin visible to the iterator. z3 decides that no coin immature at every block boundary of the window is reported spendable/withdrawable or passes the maturity test, and that no coin is counted or listed twice.",
+         "Trusted: z3, go/ssa, the model database (iterators are snapshots at creation, point reads are live, as in goleveldb). Not claimed: the second sentence of the property (absence of data races: a happens-before property of goroutines that a sequential symbolic executor cannot decide), reorganisations or spends inside the window, and full single-snapshot semantics of a read transaction (the driver takes no snapshot).", "5/C17")
+
 CLAIMED["C09"] = ("The real UtxoStore/TxStore functions (ScriptAddressUnspents, ExistsUtxo, insertUnminedInputs, putRawUnminedInput, fetchUnminedInputSpendTxHashes and the record codecs they use) run symbolically over a model wallet database whose content is an arbitrary valid credit (any hash, index, height, amount, maturity, class) with or without a pending spender recorded by the real writer; z3 decides that the reported spent-by-pending flag equals the existence of that record. One arbitrary stored state and one step: histories of any length reach the step through the stated record invariant.",
          "Trusted: z3, go/ssa, the model database (entry lists, atomic transactions; not LevelDB). Bound: one coin, one wallet, <=3 pending spenders per outpoint. Not yet covered: settle/conflict/rollback steps (DESIGN 5/C09 T2).", "5/C09")
 
